@@ -286,6 +286,11 @@ pub struct Ctx {
     /// which of a property's first-use orders of process-global lazily initialised state this process
     /// takes (C14: 0 = a forward translation first, 1 = a reverse translation first)
     pub order: u32,
+    /// divide every generated case count by this (the unoptimised build runs a fraction of the random
+    /// cases; the enumerations and the one-case-per-length families are unaffected)
+    pub divide: u32,
+    /// skip the one-case-per-length cases longer than this (unoptimised build)
+    pub maxlen: usize,
     pub mode: Mode,
     pub known: Vec<String>,
     pub only_sub: Option<String>,
@@ -329,6 +334,8 @@ impl Ctx {
             shard: 0,
             nshards: 1,
             order: 0,
+            divide: 1,
+            maxlen: usize::MAX,
             mode: Mode::Run,
             known: vec![],
             only_sub: None,
@@ -353,7 +360,7 @@ impl Ctx {
     /// quick case count -> this run's case count (thorough: x `factor`, divided over shards)
     pub fn cases(&self, quick: u32, factor: u32) -> u32 {
         let total = if self.thorough() { quick.saturating_mul(factor).saturating_mul(self.boost()) } else { quick };
-        (total / self.nshards).max(1)
+        ((total / self.nshards) / self.divide.max(1)).max(1)
     }
 
     /// extra thorough-tier multiplier for properties whose cases are cheap, so that every thorough run
@@ -534,7 +541,7 @@ impl Ctx {
         let iters0 = self.max_shrink_iters;
         self.max_shrink_iters = 40;
         for (i, n) in lens.iter().enumerate() {
-            if (i as u32) % self.nshards != self.shard {
+            if (i as u32) % self.nshards != self.shard || *n > self.maxlen {
                 continue;
             }
             self.seed = seed0 ^ ((*n as u64) << 20);
